@@ -77,6 +77,16 @@ Definition jointSpring (qfrc : list T) (j : JointSpring) : list T :=
       else addVec3 (addVec3 qfrc dof (freeForce k poly pos ps)) (dof + 3) (ballTorque k poly q qs)
   end.
 
+(* ---- mj_actuatorDamping and its callers: the damping coefficients of a joint dof / tendon are its own
+        plus, for every actuator driving that joint / tendon, the actuator's coefficients times gear^2
+        (a damper b in actuator space acts as b*gear^2 on the target).  acts = (gear, damping, dampingpoly) *)
+Definition actDampingStep (acc : T * list T) (a : T * T * list T) : T * list T :=
+  let '(g, d, dp) := a in
+  let g2 := g * g in
+  (fst acc + d * g2, map (fun pc => fst pc + snd pc * g2) (combine (snd acc) dp)).
+Definition effDamping (b0 : T) (poly0 : list T) (acts : list (T * T * list T)) : T * list T :=
+  let r := fold_left actDampingStep acts (nzero, poly0) in (b0 + fst r, snd r).
+
 (* ---- dof dampers: (effective damping, effective poly, velocity) per dof *)
 Definition dofDamper (d : T * list T * T) : T :=
   let '(b, poly, v) := d in
